@@ -165,7 +165,9 @@ def finish(eng, prop, args, seed, results, wall, enum_results=()):
         print(f"CHECKER-ERROR property={prop} zero obligations generated")
         rc = 3
     all_proved = (discharged == obligations and not undecided and not errors and not vacuous)
-    bounded = getattr(eng, "bounded_notes", {}).get(prop, [])
+    bounded = getattr(eng, "bounded_notes", {}).get(prop, []) + [
+        {"name": e["name"], "role": "deciding bounded stand-in for a clause without a deductive contract"}
+        for e in enum_results if any(x["name"] == e["name"] and x.get("always") for x in eng.enumerators)]
     level = "proof" if all_proved and not bounded and not known_hits else "other"
     assumptions = sorted(set(getattr(eng, "assumptions", {}).get(prop, []) + getattr(eng, "assumptions", {}).get("*", [])))
     ev = {
